@@ -63,7 +63,7 @@ def verus_verdict(tier, use_cache=True):
         os.makedirs(os.path.dirname(cpath), exist_ok=True)
         slim = {k: v for k, v in res.items() if k != 'json'}
         json.dump(slim, open(cpath, 'w'))
-    diags = V.classify(res, w.text, fns)
+    diags = V.classify(res, w.text, fns, ins_lines=set(w.ins_line.keys()))
     inv = V.inventory(w.text, fns)
     return {'w': w, 'fns': fns, 'res': res, 'diags': diags, 'inv': inv}
 
